@@ -723,6 +723,10 @@ func runCoop(ctx *bex.Ctx) {
 			return
 		}
 		repro := map[string]any{"position": sc.Pos, "fault": sc.Fault, "k": sc.K, "n": sc.N, "src": sc.Src, "coop": true}
+		// heartbeat of the hang watchdog and journal entry: one scenario is one case
+		if !ctx.Begin(func() map[string]any { return repro }) {
+			return
+		}
 		var f funcGen.Func[value.Value]
 		var err error
 		vsched.RunDefault(func() string { f, _, err = g.Generate(sc.Src, "n"); return "" })
